@@ -6,12 +6,13 @@ Driver for the `commit` correspondence family (C10).
 
 ```
 SCRIPT := <puller> <comp none|zstd> <fmt beve|raw> <open ok|err|cut> <verify ok|rej> <trailer N>
-          <dest old|none|dir> <stop -|N> <dec -|err|H> wire <resp>…
+          <dest old|none|dir|olds|nones> <stop -|N> <dec -|err|H> wire <resp>…
   puller := file | bevezst | beve | trailer | fileasync | verifiedasync | trailerasync
   resp   := c:<H>:<0|1>  (chunk body, last flag) | e (error response) | x (connection cut)
   dec    := what the zstd decoder makes of the bytes delivered before the stream ends or breaks
             (recorded by the harness with the zstd crate; `err` = not a whole frame, `-` = not compressed),
-            `dest dir` = destination is a non-empty directory (rename must fail)
+            `dest dir` = destination is a non-empty directory (rename must fail); `olds`/`nones` = as
+            old/none with a stale temp file left by an earlier killed pull
 
 script <i> SCRIPT                 -> <i> ret <ok|err> dest <same|L:FNV> tmp <0|1> [seen <L:FNV> trailer <H>]
 trace <i> SCRIPT :: <sys>…        -> <i> trace <accept|reject@pos> <match|expected:<sys>…>
@@ -54,6 +55,7 @@ structure Parsed where
   p : Puller
   s : Script
   codec : Codec
+  stale : Bool := false   -- a stale temp file exists before the pull
 
 def compOf : String → Option Comp
   | "none" => some .none | "zstd" => some .zstd | _ => none
@@ -71,12 +73,12 @@ def parseScript (ws : List String) : Option (Parsed × List String) :=
     match pullerOf pu, compOf co, allSome (wireWs.map respOf), decOf dc with
     | some p, some comp, some wire, some dec =>
       if (fm = "beve" ∨ fm = "raw") ∧ (op = "ok" ∨ op = "err" ∨ op = "cut") ∧ (ve = "ok" ∨ ve = "rej")
-          ∧ (de = "old" ∨ de = "none" ∨ de = "dir") ∧ tr.isNat ∧ (st = "-" ∨ st.isNat) then
+          ∧ (de = "old" ∨ de = "none" ∨ de = "dir" ∨ de = "olds" ∨ de = "nones") ∧ tr.isNat ∧ (st = "-" ∨ st.isNat) then
         let stop := if st = "-" then none else some (natOf st)
         if stop.isSome ∧ !p.usesWriteFile then none else
         some (⟨p, { openOk := op = "ok", comp := comp, beve := fm = "beve", wire := wire, stop := stop,
                     verifyOk := ve = "ok", trailer := natOf tr, renameOk := de ≠ "dir" },
-                ⟨fun _ => dec, fun _ => []⟩⟩, after)
+                ⟨fun _ => dec, fun _ => []⟩, de = "olds" ∨ de = "nones"⟩, after)
       else none
     | _, _, _, _ => none
   | _ => none
@@ -109,7 +111,7 @@ def runOf (q : Parsed) : Run := run Gen.Commit.steps q.p q.s q.codec
 def scriptObs (q : Parsed) : String :=
   let r := runOf q
   -- the destination before the pull is abstract: `[0]` stands for "whatever was there"
-  let fs := runOps ⟨some [0], none⟩ r.ops
+  let fs := runOps ⟨some [0], if q.stale then some [0xEE, 0xEE] else none⟩ r.ops
   let dest := if fs.dest = some [0] then "same" else match fs.dest with
     | some c => digest c
     | none => "gone"
